@@ -268,7 +268,7 @@ def model_check(prop, tier, seed, workdir):
     if prop == "C03":
         # liveness proper: under weak fairness every admissible configuration terminates
         fam, _, desc = families.family("never", tier, seed)
-        fam = fam[:60 if tier == "quick" else 600]
+        fam = fam[:60 if tier == "quick" else 300]
         famf = os.path.join(workdir, "fam-live.json")
         with open(famf, "w") as out:
             json.dump(fam, out)
